@@ -44,6 +44,13 @@ CHECKS.update({
     "C09": dict(technique=_CONN_TECH, text="Every operation outcome (class, virtual completion time) is part of the validated trace; idle rows require the specification to have nothing left to run (hang detection); first-cause rule encoded in the expected classes.", design="§3.5, §6 C09", note=_CONN_NOTE + " Error classes the statement does not name are only required to be in the hierarchy."),
 })
 
+CHECKS.update({
+    "C06": dict(technique=_CONN_TECH + "; dedicated slice MC_Connection_hello.cfg (invariants SessionOnlyIfCompatible, FailedConnectClosedNoStop) and hello/login verdict family", text="Invariants over the responses the finish phase based its verdict on (major <= 2, name rule, password verdict) and 'failed connect => closed, no stop callback' model-checked for all 8 configurations; version x name x verdict x order x chunking x framing family executed on the real connection, every finish outcome class is part of the validated trace.", design="§3.5, §6 C06", note=_CONN_NOTE + " An empty/absent device name is accepted even when a name is expected (LegacyNoName reading)."),
+    "C10": dict(technique=_CONN_TECH + "; keep-alive slice MC_Connection_keepalive.cfg with history variables (PingIffIdle, DeathExact, NoLateDeath, PongTimerExact, DeathWindow)", text="Keep-alive formulas model-checked on the K/4 grid to 10K with ties in both orders; TLC-generated and random arrival schedules (K in {0.5,4,15,20,60}s, K/16 grid, up to 200 periods) run on the real connection; the virtual instant of every ping and of the death is a validated trace row.", design="§3.5, §6 C10", note=_CONN_NOTE + " A message and a timer due at the same instant may run in either order; the window is closed at 5.5K for that tie."),
+    "C11": dict(technique=_CONN_TECH + "; calls slices MC_Connection_calls*.cfg with the arrival history (CallResultExact, CallLeavesNothing, CallTimeoutExact)", text="Result = accepted arrivals after the request up to the first stop (declaratively, from the arrival history), exact timeouts and 'leaves nothing' model-checked for <= 3 concurrent calls; handler-table size, waiter-set size and the timer heap are part of every validated row of the real connection's traces.", design="§3.5, §6 C11", note=_CONN_NOTE),
+    "C12": dict(technique=_CONN_TECH + "; dispatch slice MC_Connection_dispatch.cfg (action property DispatchExact with re-entrant subscriber scripts) and type-id sweeps with a wildcard subscriber", text="Closed-form 'registered at that moment' delivery, replies to peer requests, no effect of undefined ids and protocol error on undecodable payloads model-checked; id sweeps (all protocol ids, undefined ids incl. 0, both framings, payload classes) and subscriber scripts run on the real connection and validated by TLC.", design="§3.5, §6 C12", note=_CONN_NOTE + " Expected class per id comes from the text of api.proto via an independent reader."),
+})
+
 NOT_YET = {}
 
 
